@@ -864,7 +864,7 @@ class Engine:
             return res
         if isinstance(e, ast.IfExp):
             c = d.truth(self.ev(e.test, st), st)
-            if has_call(e.body) or has_call(e.orelse):
+            if (has_call(e.body) or has_call(e.orelse)) and not getattr(self, 'in_spec', 0):
                 a, b = st.copy(), st.copy()
                 a.assume(c)
                 b.assume(z3.Not(c))
@@ -900,7 +900,7 @@ class Engine:
         first = d.truth(self.ev(e.values[0], st), st)
         acc = first
         for v in e.values[1:]:
-            if has_effect_call(v, self):
+            if has_effect_call(v, self) and not getattr(self, 'in_spec', 0):
                 # short-circuit: evaluate the operand only on the paths where it is reached
                 a, b = st.copy(), st.copy()
                 a.assume(acc if is_and else z3.Not(acc))
